@@ -954,7 +954,10 @@ def run_concurrent_close(cfg):
     """Real AsyncTLSStreamTransport: a reader task loops on recv() while a second task calls aclose() (after the reader's
     `after`-th recv, or at once while the reader is parked).  The peer sends `peer` (data sizes, 0 = close_notify), the
     stream is cut after `cut` bytes; the peer answers our close_notify if reply_close.  Returns the multi-task pump
-    trace (recv and unwrap calls), the per-call results and what the peer saw."""
+    trace (recv and unwrap calls), the per-call results and what the peer saw.
+    cfg["writer"] = n > 0: instead of the reader, a task calls send_all(n bytes) while the wrapped transport is under
+    back-pressure (it parks inside transport.send_all holding the send lock); the other task calls aclose() meanwhile; then
+    the peer starts reading again: the peer must see the payload and THEN our close_notify."""
     import asyncio
 
     import c08
@@ -987,6 +990,16 @@ def run_concurrent_close(cfg):
                                                    standard_compatible=std, shutdown_timeout=30.0)
         info["results"][op] = [0, 0]
         go_close = asyncio.Event()
+        wsize = cfg.get("writer", 0)
+
+        async def writer():
+            op = rec.begin_op(K.M_WRITE, 0, [wsize])
+            try:
+                await t.send_all(b"w" * wsize)
+                info["results"][op] = [0, 0]
+                info["sent_ok"] = True
+            except BaseException as exc:
+                info["results"][op] = [1, exc_code(exc)]
 
         async def reader():
             for i in range(8):
@@ -1015,10 +1028,21 @@ def run_concurrent_close(cfg):
             except BaseException as exc:
                 info["close"] = [1, exc_code(exc)]
 
-        r = asyncio.ensure_future(reader())
-        c = asyncio.ensure_future(closer())
-        if cfg["after"] >= 8:
+        if wsize:
+            tr.writable.clear()                       # the peer stops reading: send_all() parks, holding the send lock
+            r = asyncio.ensure_future(writer())
+            c = asyncio.ensure_future(closer())
+            for _ in range(6):
+                await asyncio.sleep(0)
             go_close.set()
+            for _ in range(12):
+                await asyncio.sleep(0)
+            tr.writable.set()                         # ... and reads again
+        else:
+            r = asyncio.ensure_future(reader())
+            c = asyncio.ensure_future(closer())
+            if cfg["after"] >= 8:
+                go_close.set()
         await asyncio.wait([r, c], timeout=200)
         info["events_end"] = len(rec.events)
         for x in (r, c):
@@ -1069,13 +1093,14 @@ def run_concurrent_close(cfg):
         elif any((ev[0] == "sent" and not ev[2]) or (ev[0] == "rcvd" and ev[2] < 0) for ev in oev):
             pump_results[opid] = [1, 9]
         elif ssl_ev and ssl_ev[-1][4] == K.O_OK and opid in info["results"]:
-            pump_results[opid] = [0, ssl_ev[-1][5]]
+            pump_results[opid] = [0, 0 if ssl_ev[-1][2] == K.M_WRITE else ssl_ev[-1][5]]
         elif ssl_ev and ssl_ev[-1][4] not in (K.O_OK, K.O_WANT_READ, K.O_WANT_WRITE):
             pump_results[opid] = [1, ssl_ev[-1][4]]
     labels, obs, results = c08._events_to_trace(events, pump_results)
     tr = info.get("tr")
     info.update(delivered=tr.delivered if tr else 0, peer_total=peer.total_out, cn_seen=bool(peer.got_close_notify),
-                peer_done=bool(peer.handshaken and not peer.script), err=None)
+                peer_done=bool(peer.handshaken and not peer.script), err=None, peer_plain=len(peer.plain_in),
+                peer_error=peer.read_error)
     return dict(labels=labels, out=[obs, results], info=info)
 
 
@@ -1105,6 +1130,16 @@ def _concurrent_close_cases(thorough):
                         yield dict(input=inp, nontrivial=True,
                                    tags=["async", "recv-while-closing", f"tls1.{ver - 10}", "std" if std else "nonstd",
                                          f"close-after-{after}", "cut-" + cut_mode, "real-openssl"])
+                # aclose() while a send_all() is parked by back-pressure (holding the send lock); the peer reads again later
+                for wsize in (100, 20000):
+                    base = dict(kind=K_CONCURRENT_CLOSE, std=std, ver=ver, client=client, peer=[], after=99, reply_close=1,
+                                silent=1, cut=None, writer=wsize)
+                    r = run_concurrent_close(base)
+                    inp = sx.norm([K_CONCURRENT_CLOSE, std, r["labels"], [b"cclose", state, ver, client, [], 99, -1, 1, wsize]])
+                    _MEMO[sx.to_text(inp)] = sx.norm(r["out"])
+                    yield dict(input=inp, nontrivial=True,
+                               tags=["async", "send-parked-while-closing", f"tls1.{ver - 10}", "std" if std else "nonstd",
+                                     "real-openssl"])
 
 
 # ------------------------------------------------------------------ cases
@@ -1154,7 +1189,8 @@ def _build(cfg):
 
 def _cclose_cfg(std, tail):
     return dict(kind=K_CONCURRENT_CLOSE, std=std, ver=tail[2], client=tail[3], peer=list(tail[4]), after=tail[5],
-                cut=None if tail[6] < 0 else tail[6], reply_close=1, silent=tail[7] if len(tail) > 7 else 1)
+                cut=None if tail[6] < 0 else tail[6], reply_close=1, silent=tail[7] if len(tail) > 7 else 1,
+                writer=tail[8] if len(tail) > 8 else 0)
 
 
 def run_impl(inp):
@@ -1446,6 +1482,14 @@ def oracle(inp):
         cres = info["results"].get(info["closer_op"], [0, 0]) if info["closer_op"] is not None else [0, 0]
         unwrap_failed = cres[0] == 1 and cres[1] not in (9, 12)      # unwrap() itself raised an SSL error
         reader_failed = any(x[0] == 1 and x[1] != 12 for x in info["recvs"])      # the stream was already broken: nothing to say
+        if cfg.get("writer"):
+            if info.get("sent_ok") and (info["peer_plain"] != cfg["writer"] or info["peer_error"] is not None):
+                return ("aclose() while a send_all() was parked by back-pressure: send_all() returned but the peer did not read "
+                        f"its payload ({info['peer_plain']} of {cfg['writer']} bytes)")
+            if std and info["close"] == [0, 0] and info.get("sent_ok") and not info["cn_seen"] and not unwrap_failed:
+                return ("standard-compatible aclose() while a send_all() was parked by back-pressure (the peer read again later): "
+                        "the peer got the whole payload and then NO close-notify (our alert was never flushed: truncation at the peer)")
+            return None
         if std and info["close"] == [0, 0] and not info["cn_seen"] and not reader_failed and (_unread_close_ok() or not unwrap_failed):
             return ("standard-compatible aclose() while a recv() is pending in another task did not deliver a close-notify "
                     "to the peer")
